@@ -2583,11 +2583,7 @@ class Parameters:
         # would need to handle the params() cache as well
         # (which is tricky but important for startup speed).
         cls = self_.cls
-        type.__setattr__(cls, param_name, param_obj)
-        ParameterizedMetaclass._initialize_parameter(cls, param_name, param_obj)
-        # delete cached params() (also of the subclasses, which inherit
-        # the new Parameter)
-        _clear_params_cache(cls)
+        ParameterizedMetaclass._install_parameter(cls, param_name, param_obj)
 
     # PARAM3_DEPRECATION
     @_deprecated(extra_msg="Use instead `.param.add_parameter`", warning_cat=_ParamFutureWarning)
@@ -4554,6 +4550,28 @@ class ParameterizedMetaclass(type):
         description = param_pager(mcs)
         mcs.__doc__ = class_docstr + '\n' + description
 
+    def _install_parameter(mcs, param_name, param):
+        """
+        Make `param` the Parameter `param_name` of this class (runtime
+        addition or replacement). If it is refused - its merged default is
+        invalid - the class is left as it was.
+        """
+        missing = object()
+        previous = mcs.__dict__.get(param_name, missing)
+        type.__setattr__(mcs, param_name, param)
+        try:
+            mcs._initialize_parameter(param_name, param)
+        except Exception:
+            if previous is missing:
+                type.__delattr__(mcs, param_name)
+            else:
+                type.__setattr__(mcs, param_name, previous)
+            raise
+        finally:
+            # delete cached params() (also of the subclasses, which inherit
+            # the new Parameter)
+            _clear_params_cache(mcs)
+
     def _initialize_parameter(mcs, param_name, param):
         # A Parameter has no way to find out the name a
         # Parameterized class has for it
@@ -4673,14 +4691,13 @@ class ParameterizedMetaclass(type):
                 mcs.__dict__[attribute_name].__set__(None,value)
 
         else:
-            type.__setattr__(mcs,attribute_name,value)
-
             if isinstance(value,Parameter):
                 # same as add_parameter: the Parameter learns its name and
                 # the cached params() of this class and of its subclasses
                 # are dropped
-                mcs._initialize_parameter(attribute_name,value)
-                _clear_params_cache(mcs)
+                mcs._install_parameter(attribute_name, value)
+            else:
+                type.__setattr__(mcs,attribute_name,value)
 
     def __param_inheritance(mcs, param_name, param):
         """
